@@ -145,6 +145,17 @@ pub fn standalone_case(name: &'static str, input: Shape, layers: Vec<L>, nout: u
             ctx.eq("validate-loss", l1, l2);
             ctx.eq("validate-accuracy", a1, a2);
             ctx.fact("flags-after-validate", all_flags_eval(&net), String::new());
+            // ... and a prediction made after the stand-alone validation is still dropout-free
+            let (p, q) = (elems(&net.predict(&vx[1])), elems(&twin.predict(&vx[1])));
+            for i in 0..p.len().min(q.len()) {
+                ctx.eq(&format!("predict-after-validate[{}]", i), p[i], q[i]);
+            }
+            let pb = net.predict_batch(&vxr);
+            for (k, (a, b)) in pb.iter().zip(qb.iter()).enumerate() {
+                for (i, (x, y)) in elems(a).iter().zip(elems(b).iter()).enumerate() {
+                    ctx.eq(&format!("predict_batch-after-validate[{}][{}]", k, i), *x, *y);
+                }
+            }
         }),
     }
 }
